@@ -8,6 +8,17 @@ ROOT = os.path.dirname(os.path.dirname(os.path.abspath(__file__)))
 props = [json.loads(l) for l in open(os.path.join(ROOT, "properties.jsonl"))]
 
 CHECKS = {
+    "C19": dict(
+        text="Cache.tla models a client working through the cache, one working directly on the repository and planted cache "
+             "entries; TLC proves AfterList and SameResults for all histories <= 5 operations over 3 files (and that a cache not "
+             "cleaned on listing fails). Real histories alternate between a handle with a cache directory and one without on "
+             "the same store, with truncated / extended / foreign files planted in the cache directory; CacheTrace.tla checks "
+             "the cache directory listing after every cached command (AfterList) and equality with a twin run without cache.",
+        note="Planted entries are of the kinds the property lists (stale, wrong size, foreign); a cache file of the right size with "
+             "corrupted content is not covered. Tree packs in the cache are not cleaned by listings (only snapshot/index are "
+             "claimed by the property).",
+        technique="TLC cache/repository model + TLC validation of cache-directory listings and cached-vs-uncached twin histories",
+        design="4/C19"),
     "C16": dict(
         text="HotCold.tla refines every store operation into its hot and cold halves with interruptions in between; TLC proves "
              "HotComplete and NoDataInHot in every state for the implemented orders and shows both swapped orders fail. Real "
